@@ -12,15 +12,22 @@ pub mod common;
 #[cfg(kani)]
 pub mod stubs;
 
+pub mod c03;
+pub mod c04;
+pub mod c06;
 pub mod c07;
 pub mod c08;
 pub mod c09;
 pub mod c10;
 pub mod c11;
+pub mod c11p;
+pub mod c12;
 pub mod c13;
+pub mod c14;
 pub mod c15;
 pub mod c16;
 pub mod c17;
+pub mod c19;
 pub mod c20;
 
 use src::BytesSrc;
@@ -29,16 +36,25 @@ pub type NativeFn = fn(&mut BytesSrc);
 
 pub fn registry() -> Vec<(&'static str, NativeFn)> {
     let mut v: Vec<(&'static str, NativeFn)> = Vec::new();
+    v.extend_from_slice(c03::REG);
+    v.extend_from_slice(c04::REG);
+    v.extend_from_slice(c06::REG);
+    v.extend_from_slice(c06::dispatch::REG);
     v.extend_from_slice(c07::REG);
     v.extend_from_slice(c08::REG);
     v.extend_from_slice(c09::REG);
     v.extend_from_slice(c10::REG);
     v.extend_from_slice(c11::REG);
+    v.extend_from_slice(c11p::REG);
+    v.extend_from_slice(c12::REG);
     v.extend_from_slice(c13::REG);
     v.extend_from_slice(c13::geo::REG);
+    v.extend_from_slice(c14::REG);
     v.extend_from_slice(c15::REG);
     v.extend_from_slice(c16::REG);
     v.extend_from_slice(c17::REG);
+    v.extend_from_slice(c17::sched::REG);
+    v.extend_from_slice(c19::REG);
     v.extend_from_slice(c20::REG);
     v
 }
